@@ -14,7 +14,7 @@ from ..cfg import cfg_of
 from ..fold import ExtVal, Inst
 from ..spec import tables as T
 from ..terms import Terms, show, match, alts, C, K, L
-from .common import JWE_PRODUCE, const_value, entries, impls, is_const, scope_of, sites_calling
+from .common import resolve_all, JWE_PRODUCE, const_value, entries, impls, is_const, scope_of, sites_calling
 from .c02 import r02_2_3
 from .c04 import r04_3
 from .c17 import r17_3
@@ -134,18 +134,30 @@ def r08_3(ctx) -> None:
               show(t) if t else "", construct="CBC-HMAC MAC input and truncation")
     for m in ("encrypt", "decrypt"):
         fn = cb.methods[m]
-        hk = [d for d in eng.flow._defs(fn).get("hkey", []) if d[0] == "assign"]
-        ek = [d for d in eng.flow._defs(fn).get("ekey" if m == "encrypt" else "dkey", []) if d[0] == "assign"]
-        ok1 = len(hk) == 1 and norm(hk[0][1]) == "cek[:self.key_len]" and len(ek) == 1 and norm(ek[0][1]) == "cek[self.key_len:]"
-        calls = [n for n in fn_nodes(fn) if isinstance(n, ast.Call) and norm(n.func) == "self._hmac"]
-        ok2 = len(calls) == 1 and [norm(a) for a in calls[0].args] == ["ciphertext", "aad", "iv", "hkey"]
+        cekp = "cek"
+        if cekp not in fn.params:
+            raise AnalysisError(f"CBCHS2EncModel.{m} has no cek parameter")
+        sn = fn.self_name
+
+        def R1(e):
+            r = resolve_all(eng, fn, e)
+            return r[0] if len(r) == 1 else None
+        calls = [n for n in fn_nodes(fn) if isinstance(n, ast.Call) and norm(n.func) == f"{sn}._hmac"]
+        ok2 = len(calls) == 1 and len(calls[0].args) == 4
+        if ok2:
+            a = [R1(x) for x in calls[0].args]
+            ok2 = a[1] == "aad" and a[2] == "iv" and a[3] == f"{cekp}[:{sn}.key_len]"
+            if m == "decrypt":
+                ok2 = ok2 and a[0] == "ciphertext"
+            else:
+                ok2 = ok2 and a[0] is not None and ".encryptor()" in a[0] and a[0].endswith(".finalize()")
         aes = [n for n in fn_nodes(fn) if isinstance(n, ast.Call) and norm(n.func) == "AES"]
-        ok3 = len(aes) == 1 and norm(aes[0].args[0]) == ("ekey" if m == "encrypt" else "dkey")
+        ok3 = len(aes) == 1 and R1(aes[0].args[0]) == f"{cekp}[{sn}.key_len:]"
         cbc = [n for n in fn_nodes(fn) if isinstance(n, ast.Call) and norm(n.func) == "CBC"]
-        ok4 = len(cbc) == 1 and norm(cbc[0].args[0]) == "iv"
+        ok4 = len(cbc) == 1 and R1(cbc[0].args[0]) == "iv"
         pk = [n for n in fn_nodes(fn) if isinstance(n, ast.Call) and norm(n.func) == "PKCS7"]
         ok5 = len(pk) == 1 and norm(pk[0].args[0]) in ("AES.block_size", "128")
-        ctx.check(ok1 and ok2 and ok3 and ok4 and ok5, "R08.3", fn, fn.node, f"{fn.short} :: key split", f"CBC-HMAC {m}: MAC key must be the first half and ENC key the second half of the CEK, "
+        ctx.check(ok2 and ok3 and ok4 and ok5, "R08.3", fn, fn.node, f"{fn.short} :: key split", f"CBC-HMAC {m}: MAC key must be the first half and ENC key the second half of the CEK, "
                   "MAC over (ciphertext, aad, iv), AES-CBC with the IV and PKCS#7 padding", "hkey = cek[:key_len]; key = cek[key_len:]; _hmac(ciphertext, aad, iv, hkey)", construct=f"CBC-HMAC key split in {m}")
 
 
@@ -172,19 +184,27 @@ def r08_4(ctx) -> None:
               f"(AlgorithmID = alg when wrapping else enc; apu / apv base64url-decoded; keydatalen in bits): {show(oi) if oi else ''}", show(oi) if oi else "", construct="Concat KDF other-info")
     # AlgorithmID / keydatalen pairing: `if key_size:` -> (alg, key_size) else (enc, cek_size)
     cfg = cfg_of(dk)
-    t = [x for x in cfg.nodes if x.kind == "test" and norm(x.ast) == "key_size"]
+    ksp, csp, hp = "key_size", "cek_size", "header"
+    for q in (ksp, csp, hp):
+        if q not in dk.params:
+            raise AnalysisError(f"derive_key_for_concat_kdf lost its parameter {q}")
+    t = [x for x in cfg.nodes if x.kind == "test" and norm(x.ast) == ksp]
     okp = False
-    if t:
-        body = t[0].stmt
-        if isinstance(body, ast.If):
-            b = " ; ".join(norm(x) for x in body.body)
-            e = " ; ".join(norm(x) for x in body.orelse)
-            okp = "header['alg']" in b and "bit_size = key_size" in b and "header['enc']" in e and "bit_size = cek_size" in e
+    bitvar = None
+    if t and isinstance(t[0].stmt, ast.If):
+        def assigns(stmts):
+            return {norm(x.targets[0]): norm(x.value) for x in stmts if isinstance(x, ast.Assign) and len(x.targets) == 1 and isinstance(x.targets[0], ast.Name)}
+        b, e = assigns(t[0].stmt.body), assigns(t[0].stmt.orelse)
+        for A in b:
+            for B in b:
+                if b.get(A) == f"u32be_len_input({hp}['alg'])" and b.get(B) == ksp and e.get(A) == f"u32be_len_input({hp}['enc'])" and e.get(B) == csp:
+                    okp = True
+                    bitvar = B
     ctx.check(okp, "R08.4", dk, dk.node, f"{dk.short} :: AlgorithmID pairing", "AlgorithmID / keydatalen are not (alg, wrap key size) in key-wrapping mode and (enc, CEK size) in direct mode",
               "if key_size: alg, key_size else: enc, cek_size", construct="AlgorithmID pairing")
-    okh = "algorithm" in kw and norm(kw["algorithm"]) == "hashes.SHA256()" and "length" in kw and norm(kw["length"]) == "bit_size // 8"
+    okh = "algorithm" in kw and norm(kw["algorithm"]) == "hashes.SHA256()" and "length" in kw and resolve_all(eng, dk, kw["length"]) == sorted([f"{ksp} // 8", f"{csp} // 8"])
     ders = [n for n in fn_nodes(dk) if isinstance(n, ast.Call) and isinstance(n.func, ast.Attribute) and n.func.attr == "derive"]
-    okh = okh and len(ders) == 1 and norm(ders[0].args[0]) == "shared_key"
+    okh = okh and len(ders) == 1 and norm(ders[0].args[0]) == dk.pos_params[0] and resolve_all(eng, dk, ders[0].func.value)[0].startswith("ConcatKDFHash(")
     ctx.check(okh, "R08.4", dk, dk.node, f"{dk.short} :: KDF", "the KDF is not ConcatKDF with SHA-256 deriving keydatalen / 8 octets from Z", "ConcatKDFHash(SHA256, bit_size // 8).derive(shared_key)",
               construct="Concat KDF parameters")
     # callers pass (Z, headers, enc.cek_size, self.key_size[, tag])
@@ -193,30 +213,42 @@ def r08_4(ctx) -> None:
         if not isinstance(s.node, ast.Call):
             continue
         n += 1
-        a = [norm(x) for x in s.node.args]
-        ok = len(a) >= 4 and a[1] == "headers" and a[2] == "enc.cek_size" and a[3] == f"{s.fn.self_name}.key_size" and (len(a) == 4 or a[4] == "tag")
-        ctx.check(ok, "R08.4", s.fn, s.node, f"{s.fn.short} :: {norm(s.node)[:50]}", "Concat KDF is not called with (Z, merged headers, enc.cek_size, self.key_size[, tag])", "argument order",
+        a = [resolve_all(eng, s.fn, x) for x in s.node.args]
+        rp = next((p_ for p_ in s.fn.params if p_ == "recipient"), None)
+        ok = len(a) >= 4 and a[1] == [f"{rp}.headers()"] and a[2] == ["enc.cek_size"] and a[3] == [f"{s.fn.self_name}.key_size"] and (len(a) == 4 or a[4] == ["tag"])
+        ctx.check(ok, "R08.4", s.fn, s.node, f"{s.fn.short} :: {norm(s.node.func)}(...)", "Concat KDF is not called with (Z, the recipient's merged headers, enc.cek_size, self.key_size[, tag])", "argument order",
                   construct=f"Concat KDF call in {s.fn.short}")
-        # headers = recipient.headers()
-        hd = [d for d in eng.flow._defs(s.fn).get("headers", []) if d[0] == "assign"]
-        ctx.check(len(hd) == 1 and norm(hd[0][1]) == "recipient.headers()", "R08.4", s.fn, s.node, f"{s.fn.short} :: headers", "apu / apv / alg / enc are not read from the recipient's merged headers",
-                  "headers = recipient.headers()", construct=f"headers source in {s.fn.short}")
     ctx.count("R08.4", n, 4, "Concat KDF call sites")
     # ECDH-1PU: Z = Ze || Zs on both sides
     pu = P.cls("drafts.jwe_ecdh_1pu:ECDH1PUAlgModel")
-    for m in pu.methods.values():
-        zs = [d for d in eng.flow._defs(m).get("shared_key", []) if d[0] == "assign"]
-        if not zs:
+    n1 = 0
+    for s in eng.cg.callers.get(dk, []):
+        m = s.fn
+        if m.cls is not pu or not isinstance(s.node, ast.Call) or not s.node.args:
             continue
-        ok = len(zs) == 1 and norm(zs[0][1]) == "ephemeral_shared_key + sender_shared_key"
-        ctx.check(ok, "R08.4", m, m.node, f"{m.short} :: Z", "ECDH-1PU shared secret is not Ze || Zs", "ephemeral_shared_key + sender_shared_key", construct=f"1PU Z in {m.name}")
-        ze = [d for d in eng.flow._defs(m).get("ephemeral_shared_key", []) if d[0] == "assign"]
-        zz = [d for d in eng.flow._defs(m).get("sender_shared_key", []) if d[0] == "assign"]
+        n1 += 1
+        z = resolve_all(eng, m, s.node.args[0])
         enc_side = "encrypt" in m.name
-        want_e = "ephemeral_key.exchange_derive_key(recipient_key)" if enc_side else "recipient_key.exchange_derive_key(ephemeral_key)"
-        want_s = "sender_key.exchange_derive_key(recipient_key)" if enc_side else "recipient_key.exchange_derive_key(sender_key)"
-        ctx.check(len(ze) == 1 and norm(ze[0][1]) == want_e and len(zz) == 1 and norm(zz[0][1]) == want_s, "R08.4", m, m.node, f"{m.short} :: Ze / Zs", "Ze / Zs are not ECDH(ephemeral, recipient) / ECDH(sender, recipient)",
-                  f"{want_e}; {want_s}", construct=f"1PU Ze/Zs in {m.name}")
+        rk, ek_, sk_ = "recipient.recipient_key", "recipient.ephemeral_key", "recipient.sender_key"
+        want = f"{ek_}.exchange_derive_key({rk}) + {sk_}.exchange_derive_key({rk})" if enc_side else f"{rk}.exchange_derive_key({ek_}) + {rk}.exchange_derive_key({sk_})"
+        got = [x for x in z]
+        # on the consume side the ephemeral key is the imported epk header and the sender key may be a local narrowed by isinstance
+        okz = len(got) == 1 and _z_matches(got[0], want, enc_side)
+        ctx.check(okz, "R08.4", m, s.node, f"{m.short} :: Z", f"ECDH-1PU shared secret is not Ze || Zs with Ze = ECDH(ephemeral, recipient), Zs = ECDH(sender, recipient): {got}",
+                  want, construct=f"1PU Z in {m.name}")
+    ctx.count("R08.4", n1, 2, "ECDH-1PU Concat KDF call sites")
+
+
+def _z_matches(got: str, want: str, enc_side: bool) -> bool:
+    if got == want:
+        return True
+    # Ze || Zs shape with the recipient key as the common party
+    import re
+    if enc_side:
+        m = re.fullmatch(r"(.+)\.exchange_derive_key\((.+)\) \+ (.+)\.exchange_derive_key\((.+)\)", got)
+        return bool(m) and m.group(2) == m.group(4) == "recipient.recipient_key" and "ephemeral_key" in m.group(1) and "sender_key" in m.group(3)
+    m = re.fullmatch(r"(.+)\.exchange_derive_key\((.+)\) \+ (.+)\.exchange_derive_key\((.+)\)", got)
+    return bool(m) and m.group(1) == m.group(3) == "recipient.recipient_key" and ("epk" in m.group(2) or "ephemeral" in m.group(2)) and "sender_key" in m.group(4)
 
 
 def r08_5(ctx) -> None:
@@ -240,20 +272,38 @@ def r08_5(ctx) -> None:
     okk = okk and len(ders) == 1 and norm(ders[0].args[0]) == "key"
     ctx.check(okk, "R08.5", cd, cd.node, f"{cd.short} :: KDF", "PBKDF2 is not run with the algorithm's hash, key_size / 8 octets and the p2c count on the password", "PBKDF2HMAC(hash_alg, key_size // 8, salt, p2c).derive(key)",
               construct="PBES2 KDF parameters")
-    for m, wrap in (("encrypt_cek", "wrap_cek(cek, kek)"), ("decrypt_cek", "unwrap_cek(recipient.encrypted_key, kek)")):
+    HP2S = "urlsafe_b64decode(to_bytes(recipient.headers()['p2s']))"
+    HP2C = "recipient.headers()['p2c']"
+    PW = "recipient.recipient_key.get_op_key('deriveKey')"
+    for m in ("encrypt_cek", "decrypt_cek"):
         fn = pb.methods[m]
-        ke = [d for d in eng.flow._defs(fn).get("kek", []) if d[0] == "assign"]
-        okm = len(ke) == 1 and norm(ke[0][1]) == "self.compute_derived_key(key.get_op_key('deriveKey'), p2s, p2c)"
-        rets = [norm(r.value) for r in fn_nodes(fn) if isinstance(r, ast.Return)]
-        okm = okm and rets == [f"self.key_wrapping.{wrap}"]
-        # p2s is the decoded header value; p2c the header integer
-        ps = [norm(d[1]) for d in eng.flow._defs(fn).get("p2s", []) if d[0] == "assign"]
-        okm = okm and "urlsafe_b64decode(to_bytes(headers['p2s']))" in ps
-        ctx.check(okm, "R08.5", fn, fn.node, f"{fn.short}", f"PBES2 {m} does not derive the KEK from the password with (decoded p2s, p2c) and AES-key-wrap the CEK with it", "kek = PBKDF2(...); key_wrapping." + wrap,
-                  construct=f"PBES2 {m}")
+        sn = fn.self_name
+        rets = [r.value for r in fn_nodes(fn) if isinstance(r, ast.Return) and r.value is not None]
+        got = resolve_all(eng, fn, rets[0]) if len(rets) == 1 else []
+        if m == "encrypt_cek":
+            want = sorted(f"{sn}.key_wrapping.wrap_cek(cek, {sn}.compute_derived_key({PW}, {a}, {b}))" for a in ("secrets.token_bytes(16)", HP2S) for b in (f"{sn}.DEFAULT_P2C", HP2C))
+            # the generated salt may have any size >= 8 (decided by C18); accept other token_bytes sizes textually
+            import re as _re
+            got_n = sorted(_re.sub(r"secrets\.token_bytes\(\d+\)", "secrets.token_bytes(16)", g) for g in got)
+        else:
+            want = [f"{sn}.key_wrapping.unwrap_cek(recipient.encrypted_key, {sn}.compute_derived_key({PW}, {HP2S}, {HP2C}))"]
+            got_n = got
+        okm = got_n == want
+        ctx.check(okm, "R08.5", fn, fn.node, f"{fn.short}", f"PBES2 {m} does not derive the KEK from the password with (decoded p2s, p2c) and AES-key-wrap the CEK with it: {got[:2]}",
+                  "kek = PBKDF2(password, p2s, p2c); key_wrapping.(un)wrap_cek(..., kek)", construct=f"PBES2 {m}")
     enc = pb.methods["encrypt_cek"]
     hdr = [n for n in fn_nodes(enc) if isinstance(n, ast.Call) and isinstance(n.func, ast.Attribute) and n.func.attr == "add_header" and const_value(n.args[0]) == "p2s"]
-    ctx.check(len(hdr) == 1 and norm(hdr[0].args[1]) == "urlsafe_b64encode(p2s).decode('ascii')", "R08.5", enc, enc.node, f"{enc.short} :: p2s header", "the generated salt input is not published base64url-encoded",
+    okp = len(hdr) == 1
+    if okp:
+        # the published value is the base64url text of the very salt that is used (the same local), on the path that generated it
+        a1 = hdr[0].args[1]
+        okp = isinstance(a1, ast.Call) and norm(a1.func).endswith(".decode") and isinstance(a1.func, ast.Attribute) and isinstance(a1.func.value, ast.Call) \
+            and norm(a1.func.value.func) == "urlsafe_b64encode" and len(a1.func.value.args) == 1 and isinstance(a1.func.value.args[0], ast.Name)
+        if okp:
+            saltv = a1.func.value.args[0].id
+            cds = [n for n in fn_nodes(enc) if isinstance(n, ast.Call) and isinstance(n.func, ast.Attribute) and n.func.attr == "compute_derived_key"]
+            okp = len(cds) == 1 and len(cds[0].args) >= 2 and norm(cds[0].args[1]) == saltv
+    ctx.check(okp, "R08.5", enc, enc.node, f"{enc.short} :: p2s header", "the generated salt input is not published base64url-encoded (or another value than the salt used is published)",
               "add_header('p2s', BASE64URL(p2s))", construct="p2s header encoding")
 
 
@@ -275,23 +325,38 @@ def r08_8(ctx) -> None:
               construct="RSA key encryption calls")
     g = P.cls(M + "AESGCMAlgModel")
     enc, dec = g.methods["encrypt_cek"], g.methods["decrypt_cek"]
-    hs = {const_value(n.args[0]): norm(n.args[1]) for n in fn_nodes(enc) if isinstance(n, ast.Call) and isinstance(n.func, ast.Attribute) and n.func.attr == "add_header"}
-    ok = hs == {"iv": "urlsafe_b64encode(iv).decode('ascii')", "tag": "urlsafe_b64encode(enc.tag).decode('ascii')"}
-    ivd = [norm(d_[1]) for d_ in eng.flow._defs(dec).get("iv", []) if d_[0] == "assign"]
-    tgd = [norm(d_[1]) for d_ in eng.flow._defs(dec).get("tag", []) if d_[0] == "assign"]
-    ok = ok and ivd == ["urlsafe_b64decode(to_bytes(headers['iv']))"] and tgd == ["urlsafe_b64decode(to_bytes(headers['tag']))"]
-    gcm = [n for n in fn_nodes(dec) if isinstance(n, ast.Call) and norm(n.func) == "GCM"]
-    ok = ok and len(gcm) == 1 and [norm(a) for a in gcm[0].args] == ["iv", "tag"]
-    rets = [norm(r.value) for r in fn_nodes(enc) if isinstance(r, ast.Return)]
-    ed = [norm(d_[1]) for d_ in eng.flow._defs(enc).get("encrypted_key", []) if d_[0] == "assign"]
-    ok = ok and rets == ["encrypted_key"] and ed == ["enc.update(cek) + enc.finalize()"]
-    ctx.check(ok, "R08.8", enc, None, "AES-GCM key wrap", "AxGCMKW does not publish base64url iv / tag header parameters and decrypt with GCM(iv, tag)", "iv, tag headers; GCM(iv, tag)", construct="AES-GCM-KW fields")
+    hs = {const_value(n.args[0]): resolve_all(eng, enc, n.args[1]) for n in fn_nodes(enc) if isinstance(n, ast.Call) and isinstance(n.func, ast.Attribute) and n.func.attr == "add_header"
+          and len(n.args) == 2}
+    rets = [r.value for r in fn_nodes(enc) if isinstance(r, ast.Return) and r.value is not None]
+    rtxt = resolve_all(eng, enc, rets[0]) if len(rets) == 1 else []
+    ok = set(hs) == {"iv", "tag"} and len(rtxt) == 1
+    if ok:
+        import re as _re
+        m_ = _re.fullmatch(r"(Cipher\(AES\((.+?)\), GCM\((.+)\), backend=default_backend\(\)\)\.encryptor\(\))\.update\(cek\) \+ \1\.finalize\(\)", rtxt[0])
+        ok = bool(m_) and m_.group(2) == "recipient.recipient_key.get_op_key('wrapKey')"
+        if ok:
+            ivx, encx = m_.group(3), m_.group(1)
+            ok = hs["iv"] == [f"urlsafe_b64encode({ivx}).decode('ascii')"] and hs["tag"] == [f"urlsafe_b64encode({encx}.tag).decode('ascii')"]
+    rd = [r.value for r in fn_nodes(dec) if isinstance(r, ast.Return) and r.value is not None]
+    dtxt = resolve_all(eng, dec, rd[0]) if len(rd) == 1 else []
+    okd = len(dtxt) == 1
+    if okd:
+        IV, TG = "urlsafe_b64decode(to_bytes(recipient.headers()['iv']))", "urlsafe_b64decode(to_bytes(recipient.headers()['tag']))"
+        D = f"Cipher(AES(recipient.recipient_key.get_op_key('unwrapKey')), GCM({IV}, {TG}), backend=default_backend()).decryptor()"
+        okd = dtxt[0] == f"{D}.update(recipient.encrypted_key) + {D}.finalize()"
+    ctx.check(ok and okd, "R08.8", enc, None, "AES-GCM key wrap", f"AxGCMKW does not publish base64url iv / tag header parameters and decrypt with GCM(iv, tag): {rtxt[:1]} {dtxt[:1]}", "iv, tag headers; GCM(iv, tag)",
+              construct="AES-GCM-KW fields")
     # ECDH-ES: Z = ECDH(ephemeral, recipient) / ECDH(recipient, epk)
     ec = P.cls(M + "ECDHESAlgModel")
-    ze = [norm(d_[1]) for d_ in eng.flow._defs(ec.methods["encrypt_agreed_upon_key"]).get("shared_key", []) if d_[0] == "assign"]
-    zd = [norm(d_[1]) for d_ in eng.flow._defs(ec.methods["decrypt_agreed_upon_key"]).get("shared_key", []) if d_[0] == "assign"]
-    ctx.check(ze == ["ephemeral_key.exchange_derive_key(recipient_key)"] and zd == ["recipient_key.exchange_derive_key(ephemeral_key)"], "R08.8", ec.methods["encrypt_agreed_upon_key"], None, "ECDH-ES Z",
-              f"ECDH-ES shared secret: encrypt {ze} decrypt {zd}", "ECDH(ephemeral, recipient) on both sides", construct="ECDH-ES shared secret")
+    dkf = P.func("rfc7518.derive_key:derive_key_for_concat_kdf")
+    zz = {}
+    for s_ in eng.cg.callers.get(dkf, []):
+        if s_.fn.cls is ec and isinstance(s_.node, ast.Call) and s_.node.args:
+            zz[s_.fn.name] = resolve_all(eng, s_.fn, s_.node.args[0])
+    ze, zd = zz.get("encrypt_agreed_upon_key"), zz.get("decrypt_agreed_upon_key")
+    ctx.check(ze == ["recipient.ephemeral_key.exchange_derive_key(recipient.recipient_key)"] and
+              zd == ["recipient.recipient_key.exchange_derive_key(recipient.recipient_key.import_key(recipient.headers()['epk']))"], "R08.8", ec.methods["encrypt_agreed_upon_key"], None, "ECDH-ES Z",
+              f"ECDH-ES shared secret: encrypt {ze} decrypt {zd}", "ECDH(ephemeral, recipient) / ECDH(recipient, imported epk)", construct="ECDH-ES shared secret")
 
 
 def run(ctx) -> None:
